@@ -519,7 +519,7 @@ def build_docs(ck):
     r = ck.rng
     g = Gen(r)
     docs = []
-    npl = ck.n(2, 6)
+    npl = 2
     labels_cycle = itertools.cycle([(n, u) for u in NS for n in NAMES])
 
     def add(kind, e, **kw):
@@ -539,7 +539,7 @@ def build_docs(ck):
                     add(f"exh-text:{n}", g.from_shape(sh, labels_cycle, root_uri, texts))
     for n in range(full_n + 1, ck.n(4, 5) + 1):
         shs = shapes(n)
-        for _ in range(ck.n(260, 4000)):
+        for _ in range(ck.n(180, 2500)):
             texts = iter([(r.choice(TEXT_KINDS), "")] + [(r.choice(TEXT_KINDS), r.choice(TAIL_KINDS)) for _ in range(n - 1)])
             add(f"sampled-text:{n}", g.from_shape(r.choice(shs), labels_cycle, r.choice(["", "", "urn:a"]), texts))
     # B: every name x namespace labelling of the shapes up to 3 nodes
@@ -550,7 +550,8 @@ def build_docs(ck):
                     texts = iter([("", "")] + [(r.choice(TEXT_KINDS), r.choice(TAIL_KINDS)) for _ in range(n - 1)])
                     add(f"exh-names:{n}", g.from_shape(sh, iter(combo), r.choice(["", "urn:a"]), texts))
     # C: random trees, full alphabet; a third of them carry the known trouble makers
-    for i in range(ck.n(160, 6000)):
+    npl = ck.n(2, 4)
+    for i in range(ck.n(120, 3000)):
         trig = i % 3 == 0
         e = g.rand_tree(r.choice(["", "", "urn:a"]), r.choice([2, 3, 4, 6]), r.choice([6, 12, 25, 60]), trig, i % 4 == 1)
         d_kind = "random-trig" if trig else "random"
@@ -560,7 +561,7 @@ def build_docs(ck):
                 [pick_placements(i, "urn:a" if truth(e)["n"].startswith("{") else "", 1)[0][:-1] + "1"]
     # D: one witness per listed finding (first, so that findings are attributed to them), E: chunk boundaries
     docs = witness_docs() + docs
-    docs += big_docs(g, r, ck.n(16, 120))
+    docs += big_docs(g, r, ck.n(16, 80))
     for d in docs:
         d["xml"] = d.get("prolog", "") + render(d["el"])
         d["truth"] = truth(d["el"])
@@ -568,30 +569,11 @@ def build_docs(ck):
     return docs
 
 
-def run(ck: Check):
-    ck.level = "proof"
-    obligations, discharged, axioms = standard_proof_step(ck, extra_targets=["Model/GenericCorr.vo"])
-
-    if getattr(ck, "replay_file", None):
-        rp = json.load(open(ck.replay_file))["replay"]
-        docs = [rp["doc"]]
-    else:
-        docs = build_docs(ck)
-        # corpus: earlier failing documents first
-        rdir = os.path.join(os.path.dirname(CORR), "..", "replays", ck.pid)
-        for fn in sorted(os.listdir(rdir)) if os.path.isdir(rdir) else []:
-            if fn.startswith("known-"):
-                continue
-            try:
-                rp = json.load(open(os.path.join(rdir, fn)))["replay"]
-                if "doc" in rp and "xml" in rp["doc"]:
-                    docs.insert(0, dict(rp["doc"]))
-            except Exception:
-                pass
-
+def process_batch(ck, docs, st):
     req = {"docs": [{"xml": d["xml"], "placements": d["placements"], "handlers": d["handlers"]} for d in docs]}
     res = run_impl("impl_c11.py", req, timeout=2400)
     info = res["placements"]
+    stats, kinds, distinct = st["stats"], st["kinds"], st["distinct"]
 
     # the holder classes are what the model assumes (non-nillable, strict, list/mixed flags)
     for pid, pi in info.items():
@@ -624,9 +606,7 @@ def run(ck: Check):
         n_runs += len(rr["runs"])
 
     codes = coq_judge("c11", case_terms)
-    stats = {"runs": n_runs, "oracle_applicable_and_ok": 0, "guard_clean": 0, "parse_errors": 0}
-    kinds = {}
-    distinct = set()
+    stats["runs"] += n_runs
     for ci, (di, runs) in enumerate(index):
         d = docs[di]
         kinds[d["kind"].split(":")[0]] = kinds.get(d["kind"].split(":")[0], 0) + 1
@@ -679,6 +659,34 @@ def run(ck: Check):
                     ck.failure("wildcard-target-absent-admits-any", f"{who}: {short}", replay)
                 else:
                     ck.failure("wildcard-lax-unexplained", f"accepted although XSD rejects: {who}: {short}", replay)
+
+
+def run(ck: Check):
+    ck.level = "proof"
+    obligations, discharged, axioms = standard_proof_step(ck, extra_targets=["Model/GenericCorr.vo"])
+
+    if getattr(ck, "replay_file", None):
+        rp = json.load(open(ck.replay_file))["replay"]
+        docs = [rp["doc"]]
+    else:
+        docs = build_docs(ck)
+        # corpus: earlier failing documents first
+        rdir = os.path.join(os.path.dirname(CORR), "..", "replays", ck.pid)
+        for fn in sorted(os.listdir(rdir)) if os.path.isdir(rdir) else []:
+            if fn.startswith("known-"):
+                continue
+            try:
+                rp = json.load(open(os.path.join(rdir, fn)))["replay"]
+                if "doc" in rp and "xml" in rp["doc"]:
+                    docs.insert(0, dict(rp["doc"]))
+            except Exception:
+                pass
+
+    st = {"stats": {"runs": 0, "oracle_applicable_and_ok": 0, "guard_clean": 0, "parse_errors": 0}, "kinds": {}, "distinct": set()}
+    BATCH = 1500
+    for b0 in range(0, len(docs), BATCH):
+        process_batch(ck, docs[b0:b0 + BATCH], st)
+    stats, kinds, distinct, n_runs = st["stats"], st["kinds"], st["distinct"], st["stats"]["runs"]
 
     ck.cov["evaluations"] = n_runs
     ck.cov["distinct_nontrivial"] = len(distinct)
